@@ -152,16 +152,29 @@ def gen_fparts(rng, depth):
 def generate(rng, tier):
     n = rng.choice([1, 2, 3, 3, 4, 5])
     forms = []
+    rmacro = rng.random() < 0.12
     for _ in range(n):
         f = gen_form(rng, rng.choice([1, 2, 3, 3, 4]), optional=True)
-        if rng.random() < 0.6 and not (f[0] == "prefix" and f[1] == "#_"):
+        if (rmacro or rng.random() < 0.6) and not (f[0] == "prefix" and f[1] == "#_"):
             f = ["prefix", "'", [f], ""]  # quoted data always compiles, so the REPL oracle applies to the text
         forms.append(f)
         if rng.random() < 0.2:
             forms.append(["comment", rng.choice(["; note", ";; (unclosed", "; \"quote", ";"])])
+    if rmacro:
+        # the text first DEFINES a reader macro and later forms USE it: only right when every top-level form is
+        # read after the previous one was evaluated (the REPL clause uses a fresh REPL per cut for such texts)
+        forms.insert(0, ["seq", "(", [["atom", "defreader", True], ["atom", "zq", True], ["str", "", "zq-value"]], [" ", " ", " ", " "], False])
+        for _ in range(rng.randint(1, 3)):
+            use = ["atom", "#zq", False]
+            kind = rng.choice(["bare", "quoted-seq", "quoted-seq", "call"])
+            if kind == "quoted-seq":
+                use = ["prefix", "'", [["seq", rng.choice(["(", "["]), [["atom", "x", True], use, ["atom", "1", True]], [" ", " ", "\n", " "], False]], ""]
+            elif kind == "call":
+                use = ["seq", "(", [["atom", "print", True], use], [" ", " ", " "], False]
+            forms.insert(rng.randint(1, len(forms)), use)
     seps = [rng.choice(["\n", "\n", " ", "\n\n", "  \n"]) for _ in range(len(forms) + 1)]
     seps[0] = rng.choice(["", "", "\n", " "])
-    return {"forms": forms, "seps": seps, "repl_sample": rng.randrange(1 << 30),
+    return {"forms": forms, "seps": seps, "repl_sample": rng.randrange(1 << 30), "rmacro": rmacro,
             "eol": rng.choice(["\n", "\n", "\n", "\r\n", "\r\n"]),
             "ws": rng.choice([None, None, None, "\t", "\x0c", "\x0b", "\r"]), "ws_seed": rng.randrange(1 << 30)}
 
@@ -367,11 +380,17 @@ def render(desc):
 # ------------------------------------------------------------------ execution
 
 
-def _read_prefix(text, k):
+def _read_prefix(text, k, rmacro=False):
     hy = _S["hy"]
     st = SimStream(text, k)
+    kw = {}
+    if rmacro:
+        # reading without evaluating: the macro the text defines is installed in the reader beforehand
+        rd = hy.HyReader()
+        rd.reader_macros["zq"] = lambda reader, key: "zq-value"
+        kw["reader"] = rd
     try:
-        n = len(list(hy.read_many(st)))
+        n = len(list(hy.read_many(st, **kw)))
         out = "ok"
     except _S["PEOI"]:
         out = "peoi"
@@ -393,7 +412,8 @@ def execute(desc):
     probes = {"cuts": 0, "repl_compile_checks": 0, "repl_runsource_checks": 0, "max_reads_per_char_x100": 0}
     kinds = set()
     # the untruncated text must read cleanly -- otherwise the generator is wrong, not hy
-    full, _ = _read_prefix(text, len(text))
+    rmacro = bool(desc.get("rmacro"))
+    full, _ = _read_prefix(text, len(text), rmacro)
     if full != "ok":
         raise RuntimeError("harness: generated text is not well-formed: %r -> %s" % (text, full))
     _S["n"] += 1
@@ -410,9 +430,15 @@ def execute(desc):
         compiles = True
     except Exception:
         compiles = False
+    if rmacro and not compiles:
+        raise RuntimeError("harness: reader-macro text does not compile: %r" % (text,))
     probes["texts_compilable" if compiles else "texts_not_compilable_repl_skipped"] = 1
     rs = random.Random(desc.get("repl_sample", 0))
     runsource_cuts = set(rs.sample(range(len(text) + 1), min(6, len(text) + 1)))
+    if rmacro:
+        # always judge the complete text and the cuts just after each use
+        runsource_cuts.add(len(text))
+        runsource_cuts.update(i + 4 for i in range(len(text)) if text.startswith("#zq", i) and i + 4 <= len(text))
     outs = []
     for k in range(len(text) + 1):
         c = cls[k]
@@ -421,7 +447,7 @@ def execute(desc):
             faults["eof_inside_unjudged_atom"] += 1
             outs.append("-")
             continue
-        got, reads = _read_prefix(text, k)
+        got, reads = _read_prefix(text, k, rmacro)
         outs.append(got[0] if got in ("ok", "peoi") else "X")
         if reads > 3 * k + 20:
             viols.append({"clause": "termination", "sig": ctx[k], "detail": {"cut": k, "reads": reads}})
@@ -443,8 +469,20 @@ def execute(desc):
         with contextlib.redirect_stdout(sink), contextlib.redirect_stderr(sink):
             try:
                 if k in runsource_cuts:
-                    more = bool(repl.runsource(text[:k]))
+                    r_ = repl
+                    if rmacro:
+                        # a REPL that has not seen the definition yet
+                        _S["n"] += 1
+                        r_ = hy.REPL(locals={"__name__": "c19_console_%d" % _S["n"]})
+                        sys.modules.pop("c19_console_%d" % _S["n"], None)
+                        probes["fresh_repl_cuts"] = probes.get("fresh_repl_cuts", 0) + 1
+                    more = bool(r_.runsource(text[:k]))
                     probes["repl_runsource_checks"] += 1
+                    if rmacro and not more and c != "open" and k == len(text) and r_.locals.get(hy.mangle("*e")) is not None:
+                        # the complete text must evaluate without an error
+                        rgot_err = type(r_.locals.get(hy.mangle("*e"))).__name__
+                        viols.append({"clause": "repl_continuation", "sig": "complete_text_rejected",
+                                      "detail": {"cut": k, "error": rgot_err, "text_tail": text[-80:]}})
                 else:
                     try:
                         more = repl.compile(text[:k], "<stdin>", "exec") is None
